@@ -21,6 +21,10 @@ for f in sorted(glob.glob(os.path.join(HERE, "seeded", "*", "meta.json"))):
         seeds += " ; when it last applied (repo %s): %s" % (w.get("repo_head"), w["seed_sweep"])
         if w.get("seed_sweep_C09"):
             seeds += " ; C09 " + w["seed_sweep_C09"]
+    if m.get("seed_sweep_repo_head"):
+        seeds += " (at repo %s)" % m["seed_sweep_repo_head"]
+    if m.get("seed_sweep_earlier"):
+        seeds += " ; earlier, at repo %s: %s" % (m["seed_sweep_earlier"].get("repo_head"), m["seed_sweep_earlier"]["seed_sweep"])
     if m.get("sweep_at_base"):
         b = m["sweep_at_base"]
         seeds += " ; on its own base %s (buckets new against the base): %s" % (b.get("base"), b.get("verdicts") or b.get("error"))
